@@ -39,16 +39,9 @@ RULE = ("random small contents trees over random pre-existing roots (generators 
         "is a crash point (fresh identical root, killed before call k), plus half-write crashes and EIO injection at every k; "
         "non-trivial = a crash point of a merge that replaces at least one pre-existing non-directory path and lies strictly inside the merge")
 
-class Sandbox(c18.Sandbox):
-    """scratch root whose pre-existing files really carry the special permission bits of their node: chown(2) clears
-    set-uid/set-gid — for root as well — and the shared builder changes the owner after the mode, so a pre-existing
-    `04711` file used to be a plain `0711` one on disk; here the special bits are put back after the owner is set"""
-
-    def build(self, tree, mkroot=True):
-        super().build(tree, mkroot)
-        for nd in tree:
-            if nd["k"] in ("file", "fifo") and nd.get("link_to") is None and nd["mode"] & 0o7000:
-                os.chmod(self.path(nd["p"]), nd["mode"])
+# scratch roots: the shared builder sets the owner before the permissions (chown(2) clears set-uid/set-gid — for root as
+# well), so pre-existing files really carry the special permission bits of their node
+Sandbox = c18.Sandbox
 
 
 # permission bits a live file can carry besides rwx: set-uid, set-gid, both, sticky, with and without x; and none at all
